@@ -69,6 +69,8 @@ class Opts:
         self.leaf_everywhere = False
         self.min_modules = 1
         self.adversarial_leaf_names = False
+        self.pair_pct = 12
+        self.array_pct = 22
         self.history = False  # C04: an interleaved history of connect / replace / disconnect operations per module
         self.avoid_known = True  # do not construct the triggers of open known findings (counted as redirects)
         for k, v in kw.items():
@@ -293,7 +295,9 @@ class ModGen:
             self.new_sig(d.width(o.wide))
         if o.bundles and spec["bundles"]:
             nb = [b for b in range(len(spec["bundles"])) if not spec["bundles"][b].get("builtin")]
-            if nb and o.bundle_ports and d.bool(50):
+            # (with adversarial leaf names the top module gets no bundle ports: its flattened port names would be the
+            #  elaborator's to choose, and the comparison keys top-level ports by name)
+            if nb and o.bundle_ports and d.bool(50) and not (is_top and o.adversarial_leaf_names):
                 bi = d.choice(nb)
                 for k in range(d.weighted([(1, 70), (2, 25), (3, 5)])):
                     if k and d.bool(40):
@@ -321,9 +325,9 @@ class ModGen:
                 of = d.choice(targets)
             iface = target_iface(spec, of)
             kind = "inst"
-            if o.arrays and d.bool(22):
+            if o.arrays and d.bool(o.array_pct):
                 kind = "array"
-            elif o.pairs and d.bool(12) and all(p[0] == "sig" for p in iface):
+            elif o.pairs and d.bool(o.pair_pct) and all(p[0] == "sig" for p in iface):
                 kind = "pair"
             inst = {"name": "i%d" % k, "of": of, "kind": kind, "conns": []}
             if kind == "array":
